@@ -103,8 +103,48 @@ func runCheck(repo, verif, prop, tier string, secs int, keep bool, evOut string)
 		return 2
 	}
 	var results []*FuncResult
+	// Modular reasoning uses a callee's contract (and a lemma's statement) without looking at its
+	// body, so what is claimed for this property also rests on those: the check therefore includes,
+	// transitively, every contracted package function called by a function it verifies and every
+	// lemma such a function uses, whether or not they carry this property's tag.
+	have := map[string]bool{}
 	for _, n := range names {
-		results = append(results, VerifyFunction(L, n, L.CF.Contracts[n], prop))
+		have[n] = true
+	}
+	closure := []string{}
+	for i := 0; i < len(names); i++ {
+		n := names[i]
+		r := VerifyFunction(L, n, L.CF.Contracts[n], prop)
+		results = append(results, r)
+		var deps []string
+		deps = append(deps, r.Callees...)
+		if ct := L.CF.Contracts[n]; ct != nil {
+			for _, u := range ct.Uses {
+				if k := strings.Index(u, "/"); k > 0 {
+					u = u[k+1:]
+				}
+				deps = append(deps, "lemma:"+u)
+			}
+		}
+		for _, d := range deps {
+			ct := L.CF.Contracts[d]
+			if ct == nil || have[d] || strings.HasPrefix(d, "iface:") || strings.HasPrefix(d, "ext:") {
+				continue
+			}
+			have[d] = true
+			if ct.Trusted != "" {
+				trusted = append(trusted, d+" ("+ct.Trusted+")")
+				continue
+			}
+			if ct.Inline {
+				continue
+			}
+			names = append(names, d)
+			closure = append(closure, d)
+		}
+	}
+	if len(closure) > 0 {
+		fmt.Printf("NOTE %d function(s)/lemma(s) included because verified functions rely on their contracts: %s\n", len(closure), strings.Join(closure, ", "))
 	}
 	// Trusted contracts of package functions (dependency-shaped code that is
 	// outside the subset) get a bounded stand-in: the contract's Go rendering is
